@@ -218,7 +218,7 @@ def expectation_problem(c, impl, ex):
 
 
 def _worker(cases):
-    res = runmodel.run_both_many([dict(doc=c['doc'], prelude=PRELUDE) for c in cases])
+    res = runmodel.run_both_many_safe([dict(doc=c['doc'], prelude=PRELUDE) for c in cases])
     return [(impl, model, df, expectation_problem(c, impl, ex)) for c, (impl, model, df, ex) in zip(cases, res)]
 
 
